@@ -135,12 +135,44 @@ def restart_script(t, scen, rep):
     ops += [{"op": "settle"}, {"op": "expect_wire", "c": 2, "m": [hx("out%d.2" % scen)]}, {"op": "quiescent"}]
     return {"scen": scen, "sock": t, "ops": ops, "tag": "restart-same-identity/%d" % rep, "nojitter": True}
 
+def twin_script(t, scen, rep):
+    """two connections of one peer (one identity) register at the same time (Registry.tla): the first is stopped in the middle of its
+    registration - it is in the peer table, not yet in the rotation / the fair queue -, the second starts; when the first is let go
+    both finish. Whatever the order, the socket must end up with ONE of them in all its structures (the one that finished last):
+    that one is served in both directions, the other is released"""
+    ptype = S.PEER_OF[t][0]
+    tag = "tw%d" % scen
+    ops = [{"op": "gate_hold", "name": "reg.after_table"},
+           {"op": "attach", "c": 1, "ptype": ptype, "ident": hx("twin")},
+           {"op": "attach", "c": 2, "ptype": ptype, "ident": hx("twin")},
+           {"op": "gate_release"}, {"op": "attach_wait", "c": 1}, {"op": "attach_wait", "c": 2}, {"op": "settle"}, {"op": "quiescent"}]
+    if t == "PULL":
+        ops += [{"op": "psend", "c": 2, "m": [hx(tag)]}, {"op": "recv"}]
+    elif t == "PUSH":
+        ops += [{"op": "send", "m": [hx(tag)], "note": {"first": list(tag.encode())}}, {"op": "expect_wire", "c": 2, "m": [hx(tag)]}]
+    elif t == "DEALER":
+        ops += [{"op": "psend", "c": 2, "m": [hx(tag)]}, {"op": "recv"},
+                {"op": "send", "m": [hx(tag + "r")], "note": {"first": list(tag.encode())}}, {"op": "expect_wire", "c": 2, "m": [hx(tag + "r")]}]
+    elif t == "ROUTER":
+        ops += [{"op": "psend", "c": 2, "m": [hx(tag)]}, {"op": "recv"},
+                {"op": "send_to", "c": 2, "m": [hx(tag + "r")]}, {"op": "expect_wire", "c": 2, "m": [hx(tag + "r")]}]
+    elif t == "REP":
+        ops += [{"op": "psend", "c": 2, "m": [hx(""), hx(tag)]}, {"op": "recv"},
+                {"op": "send", "m": [hx(tag + "r")]}, {"op": "expect_wire", "c": 2, "m": [hx(""), hx(tag + "r")]}]
+    elif t == "XPUB":
+        ops += [{"op": "psend", "c": 2, "m": [hx(b"\x01")]}, {"op": "recv"}, {"op": "settle"},
+                {"op": "send", "m": [hx(tag)], "note": {"first": list(tag.encode())}}, {"op": "settle"}, {"op": "expect_wire", "c": 2, "m": [hx(tag)]}]
+    else:
+        return None
+    ops += [{"op": "quiescent"}]
+    return {"scen": scen, "sock": t, "ops": ops, "tag": "twins/%d" % rep, "nojitter": True}
+
 def run(chk, replay=None):
     chk.rule = ("cases = grid {9 socket types} x {cut position in the victim's byte stream: between messages, inside a frame header, inside an 8-byte length, inside a body, between "
                 "frames of a multipart message} x {orderly EOF, connection reset (reads and writes fail), EOF followed by write failure} x {1, 2 other live peers} x {the fault is first met by a recv, by a send}, each followed by recv / send calls and "
                 "traffic from the other peers, on real sockets over in-memory pipes (enumerated exhaustively), plus seeded random variations; judged by TLC: TraceLifecycle (at most one "
                 "error per fault, no send routed to a peer whose end was observed, both halves released by the next quiescent point) and TraceDelivery (other peers unaffected); "
-                "the reaction mechanism is model-checked with its named deviations (PeerLifecycle); distinct = distinct grid cells; non-trivial = all")
+                "the reaction mechanism is model-checked with its named deviations (PeerLifecycle), the peer table's locking with PeerTable, the multi-step registration / forgetting of connections of one identity with Registry (bound by the twins cells: one registration is stopped between its steps while a second one of the same identity runs); distinct = distinct grid cells; non-trivial = all")
     chk.assumptions = ["TLC and CommunityModules are correct", "'observed' = the library's read on that connection returned EOF / an error or its write returned an error (logged by the pipe)",
                        "descriptor counting over real TCP/IPC is done by the C17 check's drivers, not here"]
     thorough = chk.tier == "thorough"
@@ -157,6 +189,21 @@ def run(chk, replay=None):
                             ("MC_PeerTable_reach", False, "reachability companion: a handshake really queues behind a held entry")):
         r = vlib.tlc("PeerTable", cfg + ".cfg", chk.wd, timeout=300, coverage=must)
         (chk.model_must_hold if must else chk.model_must_fail)(r, "PeerTable " + what)
+    for cfg, must, what in (("MC_Registry_ok", True, "the repaired design (the steps of a registration / of forgetting a connection run under the lock of the peer's table bucket; a stream let go of while it is polled is not put back), 2 connections of one identity: at every quiescent point the peer table, the rotation and the fair queue hold the same connection or none, it is whole and not ended, and the connection that registered last is not lost"),
+                            ("MC_Registry_ok3", True, "the repaired design, 3 connections"),
+                            ("MC_Registry_ok_norot", True, "the repaired design, socket without a rotation (PULL, ROUTER, REP, SUB, XPUB), 3 connections"),
+                            ("MC_Registry_ok_nofq", True, "the repaired design, socket without a fair queue (PUSH, REQ), 3 connections"),
+                            ("MC_Registry_steps", False, "the steps interleave, last writer wins, the rotation is left by identity (the tree before fix F33): crossed halves / registered but not in the rotation"),
+                            ("MC_Registry_steps_nofq", False, "the same for a socket without a fair queue: a connected peer outside the rotation"),
+                            ("MC_Registry_newest", False, "the steps interleave but every structure keeps the higher connection number (an intermediate repair that was tried and withdrawn)"),
+                            ("MC_Registry_zombie", False, "atomic steps, but a stream forgotten or superseded while it is polled is put back"),
+                            ("MC_Registry_reach1", False, "reachability companion: two connections registered"),
+                            ("MC_Registry_reach2", False, "reachability companion: a connection is forgotten while its stream is out")):
+        r = vlib.tlc("Registry", cfg + ".cfg", chk.wd, timeout=300, coverage=must)
+        if must:
+            chk.model_must_hold(r, "Registry " + what, disabled=("Take", "PutBack", "StreamEnd") if cfg.endswith("nofq") else ())
+        else:
+            chk.model_must_fail(r, "Registry " + what)
     if replay:
         sc = json.load(open(replay))["replay"]["script"]
         fam = [sc]
@@ -189,6 +236,13 @@ def run(chk, replay=None):
                     js = joining_script(t, scen, rep, same_identity=True)
                     if js:
                         fam.append(js)
+    if not replay:
+        for t in S.PEER_OF:
+            for rep in range(6 if thorough else 2):
+                scen += 1
+                ts = twin_script(t, scen, rep)
+                if ts:
+                    fam.append(ts)
     if not replay:
         for t in ("PUB", "XPUB"):
             for rep in range(24 if thorough else 8):      # which branch the old reader task's select! takes is random
